@@ -6,7 +6,7 @@ import treeutil as tu
 from common import time_limit
 
 ID = "C17"
-GEN_DEPENDS = []
+GEN_DEPENDS = ["UltraPrec"]
 RULE = ("dyadic trees (1-14 leaves quick, up to 40 thorough; polytomies, unary nodes, None lengths, zero lengths, fixed families): "
         "exactly ultrametric, randomly non-ultrametric, ultrametric with ONE tip moved by eps*(1 +- 2^-k) (k<=20; eps in "
         "{default 1e-5, 0.01, 2^-10, 2^-3, 1, 0}; also exactly eps), every tip moved by a multiple of eps/4, and child-shuffled copies; "
@@ -161,7 +161,7 @@ def prec_value(dendropy, p):
     from dendropy.utility import constants
     if p == "D":
         v = constants.DEFAULT_ULTRAMETRICITY_PRECISION
-        return {}, fr(v), F(v)
+        return {}, "D", F(v)      # the model takes the default from Gen/UltraPrec.lean (regenerated from the source)
     if p == "N":
         return {"ultrametricity_precision": None}, "N", None
     if p == "F":
@@ -830,7 +830,9 @@ def tree_battery(ctx, D, rng, toks, kind, pending):
 def run(ctx):
     D = __import__("dendropy")
     rng = ctx.rng
-    ctx.set_budget(40, 700)
+    import time
+    ctx.t0 = time.time()      # the exploration budget starts here (waiting for the shared build lock must not eat it)
+    ctx.set_budget(40, 640)
     pending = []
     ntrees = ctx.pick(900, 20000)
     max_leaves = ctx.pick(14, 40)
@@ -875,7 +877,10 @@ def run(ctx):
                 if ctx.out_of_time():
                     break
                 toks = tokens_from(shape, preorder_lens_ultra(rng, shape, None))
-                cnt += run_perturbation(ctx, D, rng, toks, pending, [None, 1, 2, 5, 10, 15, 20], leaves=leaf_indices(toks), all_signs=True)
+                if n <= 5:
+                    cnt += run_perturbation(ctx, D, rng, toks, pending, [None, 1, 2, 5, 10, 15, 20], leaves=leaf_indices(toks), all_signs=True)
+                else:
+                    cnt += run_perturbation(ctx, D, rng, toks, pending, [None, rng.randint(1, 19), 20], leaves=leaf_indices(toks))
                 maybe_flush(20000)
         flush(ctx, pending)
         cnt2 = 0
@@ -890,8 +895,9 @@ def run(ctx):
                 cnt2 += 1
                 maybe_flush(20000)
         flush(ctx, pending)
-        ctx.extra["exhaustive_small_scope"] = ("every shape <= 6 leaves x every tip x 6 precisions x k in {exact,1,2,5,10,15,20} x both signs x "
-                                               "both directions: %d age cases; every statistic on every shape <= 7 leaves: %d trees" % (cnt, cnt2))
+        ctx.extra["exhaustive_small_scope"] = ("every shape <= 5 leaves x every tip x 6 precisions x k in {exact,1,2,5,10,15,20} x both signs x "
+                                               "both directions, every shape of 6 leaves x every tip x 6 precisions x k in {exact, random, 20}: "
+                                               "%d age cases; every statistic on every shape <= 7 leaves: %d trees" % (cnt, cnt2))
 
 
 def replay(ctx, rec):
